@@ -224,8 +224,8 @@ func c19Run(in c19In) c19Out {
 }
 
 func c19EnvGal(view map[string]*nodestate.NodeState, cluster []string, cfg *config.Config) string {
-	return "{| oe_master := 1%N; oe_states := " + statesGal(view) + "; oe_cluster := " + hostsGal(cluster) +
-		"; oe_low := " + vk.Z(int64(cfg.OptimizationConfig.LowReplicationMark/time.Second)) + "; oe_high := " + vk.Z(int64(cfg.OptimizationConfig.HighReplicationMark/time.Second)) + " |}"
+	return "{| ov_master := 1%N; ov_states := " + statesGal(view) + "; ov_cluster := " + hostsGal(cluster) +
+		"; ov_low := " + vk.Z(int64(cfg.OptimizationConfig.LowReplicationMark/time.Second)) + "; ov_high := " + vk.Z(int64(cfg.OptimizationConfig.HighReplicationMark/time.Second)) + " |}"
 }
 
 func c19Cases(in c19In, out c19Out) []string {
